@@ -225,4 +225,14 @@ def isCiscoChar (c : Char) : Bool := Gen.ciscoB64.contains c.toNat
 /-- a salt as the fourteen-step loop builds it -/
 def ValidSalt (n : Nat) (salt : Str) : Prop := salt.length = n ∧ ∀ c ∈ salt, isCiscoChar c = true
 
+/-- the only exception `decrypt_type_8` / `decrypt_type_9` know -/
+inductive NoDecrypt | notImplementedError
+deriving Repr, DecidableEq
+
+/-- `decrypt_type_8(pwd)`: a type 8 hash is one-way; the method raises `NotImplementedError` whatever it is given -/
+def decryptType8 (_pwd : Str) : Except NoDecrypt Str := .error .notImplementedError
+
+/-- `decrypt_type_9(pwd)`: likewise -/
+def decryptType9 (_pwd : Str) : Except NoDecrypt Str := .error .notImplementedError
+
 end Ccp.Pwd
